@@ -29,6 +29,7 @@ var (
 	fRun0   = flag.Int("run0", 0, "first run number")
 	fProcs  = flag.Int("procs", 1, "GOMAXPROCS for controlled executions")
 	fOpt    = flag.String("opt", "", "driver option string")
+	fSteps  = flag.Bool("logsteps", false, "log controller steps as events (X-level trace validation)")
 )
 
 // Schedule is one TLC-generated schedule.
@@ -39,20 +40,20 @@ type Schedule struct {
 }
 
 type stats struct {
-	Driver        string           `json:"driver"`
-	Executions    int              `json:"executions"`
-	Events        int              `json:"events"`
-	Schedules     int              `json:"schedules"`
-	Followed      int              `json:"schedules_followed"`
-	Distinct      int              `json:"distinct_label_sequences"`
-	Steps         int              `json:"steps"`
-	Deadlocks     int              `json:"bubble_deadlocks"`
-	Samples       []map[string]any `json:"samples"`
-	WallS         float64          `json:"wall_s"`
-	Seed          int64            `json:"seed"`
-	FirstRun      int              `json:"first_run"`
-	LastRun       int              `json:"last_run"`
-	RunIndex      map[string]any   `json:"-"`
+	Driver     string           `json:"driver"`
+	Executions int              `json:"executions"`
+	Events     int              `json:"events"`
+	Schedules  int              `json:"schedules"`
+	Followed   int              `json:"schedules_followed"`
+	Distinct   int              `json:"distinct_label_sequences"`
+	Steps      int              `json:"steps"`
+	Deadlocks  int              `json:"bubble_deadlocks"`
+	Samples    []map[string]any `json:"samples"`
+	WallS      float64          `json:"wall_s"`
+	Seed       int64            `json:"seed"`
+	FirstRun   int              `json:"first_run"`
+	LastRun    int              `json:"last_run"`
+	RunIndex   map[string]any   `json:"-"`
 }
 
 func TestRun(t *testing.T) {
@@ -112,6 +113,7 @@ func TestRun(t *testing.T) {
 			}()
 			synctest.Test(t, func(t *testing.T) {
 				x = sched.NewExec(tw, seed)
+				x.LogSteps = *fSteps
 				defer x.Detach()
 				name := ""
 				if sc != nil {
